@@ -43,6 +43,8 @@ def generate(seed, index, tier):
     rng = scenarios.derive_rng(seed, ID, index)
     if index % 25 == 24:
         return _gen_homonym(rng)
+    if index % 25 == 23:
+        return _gen_type_reset(rng)
     mode = 'hinted' if rng.random() < 0.3 else 'written'
     ops = None
     if mode == 'hinted':
@@ -89,6 +91,46 @@ def _gen_homonym(rng):
     mode = 'hinted' if rng.random() < 0.3 else 'written'
     return {'project': project, 'rows': {}, 'cfg': {}, 'mode': mode,
             'hashseed': rng.choice([0, 1]), 'homonym': True}
+
+
+def _gen_type_reset(rng):
+    """A column type change is a hard reset of the field's attributes:
+    what the mutation does not restate (null, unique, db_index) returns to
+    its default in the database as well."""
+    old_kind, new_kind = rng.choice([('Integer', 'BigInteger'),
+                                     ('BigInteger', 'Integer'),
+                                     ('Char', 'Text'), ('Integer', 'Char')])
+    attrs = {}
+    while not attrs:
+        for k in ('null', 'unique', 'db_index'):
+            if rng.random() < 0.5:
+                attrs[k] = True
+    if old_kind == 'Char':
+        attrs['max_length'] = 20
+    restate = {k: v for k, v in attrs.items()
+               if k in ('null', 'unique', 'db_index') and rng.random() < 0.4}
+    if new_kind == 'Text':
+        restate.pop('unique', None)
+        restate.pop('db_index', None)
+    if new_kind == 'Char':
+        restate['max_length'] = 30
+    model = {'name': 'Item', 'fields': [
+        {'name': 'a', 'kind': old_kind, 'attrs': attrs},
+        {'name': 'b', 'kind': 'Integer', 'attrs': {'null': True}}],
+        'meta': {}}
+    mut = {'op': 'ChangeField', 'model': 'Item', 'name': 'a',
+           'kind': new_kind, 'attrs': restate}
+    vals = ['x1', 'x2', 'x3'] if old_kind == 'Char' else [11, 12, 13]
+    rows = {'va_item': [{'id': i + 1, 'a': v, 'b': None}
+                        for i, v in enumerate(vals[:rng.choice([0, 2, 3])])]}
+    project = {'apps': {'va': {'v0': [model], 'steps': [{'evos': [
+        {'label': spec.evo_label(0), 'mutations': [mut]}]}]}},
+        'order': ['va'], 'databases': ['default']}
+    # a hint for a column that becomes NOT NULL needs a user value
+    hintable = not (attrs.get('null') and 'null' not in restate)
+    mode = 'hinted' if hintable and rng.random() < 0.4 else 'written'
+    return {'project': project, 'rows': rows, 'cfg': {}, 'mode': mode,
+            'hashseed': rng.choice([0, 1]), 'type_reset': True}
 
 
 def touched_models(project, state0, state1):
